@@ -37,6 +37,8 @@ func (timeconvSlice) Name() string { return "timeconv" }
 func (timeconvSlice) Corpus() [][]string {
 	return [][]string{
 		// TestClient's numbers: base 6 s at 90 kHz, audio at 44.1 kHz
+		{"pace rate=90000 pts=0 dts=0 el=1000000000", "pace rate=90000 pts=450000 dts=450000 el=0", "pace rate=90000 pts=990000 dts=990000 el=0",
+			"pace rate=90000 pts=-1 dts=0 el=0", "pace rate=0 pts=1 dts=1 el=0", "pace rate=48000 pts=0 dts=-48000 el=-5000000000"},
 		{"conv ts=90000 base=540000 v=540000 rate=90000", "conv ts=90000 base=540000 v=264600 rate=44100",
 			"conv ts=90000 base=540000 v=546000 rate=90000"},
 		// F9: zero time scale
@@ -222,6 +224,22 @@ func (r *timeconvRunner) Step(line string) (out []string) {
 		}
 	}()
 	switch op {
+	case "pace":
+		rate, o1 := tcInt(m, "rate")
+		pts, o2 := tcInt(m, "pts")
+		dts, o3 := tcInt(m, "dts")
+		el, o4 := tcInt(m, "el")
+		if !(o1 && o2 && o3 && o4) {
+			return []string{"bad-op"}
+		}
+		// real clientTrack.handleData with startRTC = now - el and a cancelled context (returns at once in every case)
+		res := gohlslib.VerifHandleDataPace(int(rate), pts, dts, time.Duration(el))
+		// direct oracle (property text): units that precede the origin are dropped, never delivered
+		if pts < 0 && res != "discard" {
+			r.fail("handleData(pts=%d) was not dropped (outcome %s)", pts, res)
+		}
+		return []string{"pace=" + res}
+
 	case "conv":
 		ts, o1 := tcInt(m, "ts")
 		base, o2 := tcInt(m, "base")
@@ -514,7 +532,42 @@ func (timeconvSlice) Gen(r *rand.Rand, _ int, tier string) ([]string, []string) 
 	tagset := map[string]bool{}
 	n := 3 + r.Intn(8)
 	for len(ops) < n {
-		switch x := r.Intn(100); {
+		switch x := r.Intn(108); {
+		case x >= 100: // pace: the real-time pacing block of handleData, classes kept >= 600 ms away from its two thresholds
+			rate := tcRates[r.Intn(len(tcRates))]
+			if r.Intn(40) == 0 {
+				rate = 0
+			}
+			els := []int64{0, 1, 30, 3600, -5, 86400}
+			el := els[r.Intn(len(els))] * 1000000000
+			deltas := []int64{-20, -1, 1, 5, 9, 11, 60}
+			delta := deltas[r.Intn(len(deltas))] * 1000000000
+			if rate >= 600 {
+				delta += int64(r.Intn(800001))*1000 - 400000000
+				el += int64(r.Intn(1000)) * 1000000
+			}
+			dur := el + delta
+			var dts int64
+			if rate != 0 {
+				dts = new(big.Int).Div(new(big.Int).Mul(big.NewInt(dur), big.NewInt(rate)), big.NewInt(1000000000)).Int64()
+			}
+			pts := dts + int64(r.Intn(3))*1000
+			if pts < 0 {
+				pts = int64(r.Intn(1000))
+			}
+			if r.Intn(10) == 0 {
+				pts = -1 - int64(r.Intn(1000))
+				tagset["pace-negative-pts"] = true
+			}
+			ops = append(ops, fmt.Sprintf("pace rate=%d pts=%d dts=%d el=%d", rate, pts, dts, el))
+			switch {
+			case delta < 0:
+				tagset["pace-late"] = true
+			case delta < 10000000000:
+				tagset["pace-ahead"] = true
+			default:
+				tagset["pace-beyond-cap"] = true
+			}
 		case x < 30: // conv
 			ts := tcRates[r.Intn(len(tcRates))]
 			rate := tcRates[r.Intn(len(tcRates))]
